@@ -326,7 +326,13 @@ func runC04Case(r *ev.Run, c c04Case) c04Result {
 		}
 	}
 	// fault-free run: everything must be delivered
-	if len(c.Script) == 0 {
+	onlyPositive := true // no deviation, or only positive replies with another 2yz code
+	for _, e := range c.Script {
+		if e.Kind != "alt-2yz" {
+			onlyPositive = false
+		}
+	}
+	if onlyPositive {
 		if dialErr != nil || sendErr != nil {
 			all8bitOK := true
 			for i := range msgs {
@@ -464,7 +470,11 @@ func runC04(r *ev.Run, rep *ev.ReplayDoc) ev.Summary {
 			}
 			var kids []item
 			for pos := last + 1; pos < res.steps; pos++ {
-				for _, k := range devKinds {
+				kinds := devKinds
+				if pos < len(res.stepVerbs) && res.stepVerbs[pos] == "RCPT" {
+					kinds = append(append([]string{}, devKinds...), "alt-2yz") // 251 / 252: accepted recipients
+				}
+				for _, k := range kinds {
 					sc := append(append([]scriptEntry(nil), it.c.Script...), scriptEntry{Index: pos, Kind: k})
 					kids = append(kids, item{c04Case{Cfg: it.c.Cfg, Script: sc}})
 				}
